@@ -10,6 +10,10 @@ import os
 REPO = os.environ.get("PYVC_REPO", "/repo")
 
 
+class NotFound(KeyError):
+    """a function/class under contract does not exist in the tree under check"""
+
+
 class Source:
     def __init__(self, root=None):
         self.root = root or REPO
@@ -35,6 +39,8 @@ class Source:
 
     # ---- lookup
     def cls(self, module, name):
+        if (module, name) not in self.classes:
+            raise NotFound(f"{module}.{name}")
         return self.classes[(module, name)]
 
     def has_cls(self, module, name):
@@ -51,7 +57,7 @@ class Source:
         """function `Class.method` (or bare function) of a module. Properties: which='getter'|'setter'."""
         fs = self.functions.get((module, qual))
         if not fs:
-            raise KeyError(f"{module}.{qual}")
+            raise NotFound(f"{module}.{qual}")
         if which is None:
             # skip typing overload stubs
             real = [f for f in fs if not any(_decname(d) == "overload" for d in f.decorator_list)]
@@ -62,7 +68,7 @@ class Source:
                 return f
             if which == "setter" and any(d.endswith(".setter") for d in decs):
                 return f
-        raise KeyError(f"{module}.{qual}[{which}]")
+        raise NotFound(f"{module}.{qual}[{which}]")
 
     def has_func(self, module, qual):
         return (module, qual) in self.functions
@@ -104,9 +110,9 @@ class Source:
             if m and (m, f"{c}.{meth}") in self.functions:
                 try:
                     return m, c, self.func(m, f"{c}.{meth}", which)
-                except KeyError:
+                except NotFound:
                     continue
-        raise KeyError(f"{cname}.{meth}")
+        raise NotFound(f"{cname}.{meth}")
 
     def subclasses(self, module, base):
         """all classes of `module` having `base` in their MRO (excluding base itself), in source order"""
